@@ -306,6 +306,14 @@ func scenarios() []scen {
 			b2 := blk(p, b1.Hash(), p.Height+2, 6, 0)
 			return []*reftx.Block{a1, b1, b2}
 		}},
+		// the first snapshot is told to hurry: save() has everything queued and returns while its file writer may still lag behind
+		{name: "S4-hurried-snapshot-then-reorg-then-close", paced: true, qb: 1, tb: 2, horizon: 20000, events: []string{"b0", "idle", "hurry", "b1", "b2", "idle", "close"}, expect: "b0=ok,b1=ok,b2=ok", blocks: func(p *chainx.Prefix) []*reftx.Block {
+			n := p.Named
+			a1 := blk(p, p.Tip, p.Height+1, 5, 0, sp([]OP{n["F0.0"]}, []reftx.Out{o1(10e8)}))
+			b1 := blk(p, p.Tip, p.Height+1, 6, 0, sp([]OP{n["F0.0"], n["F2.1"]}, []reftx.Out{o1(20e8)}))
+			b2 := blk(p, b1.Hash(), p.Height+2, 6, 0)
+			return []*reftx.Block{a1, b1, b2}
+		}},
 	}
 	// the same histories on a database with compressed records (client option Memory.CompressUTXO):
 	// the commit workers and the undo writer then serialise through one package-level pool
